@@ -1,6 +1,7 @@
 import Driver.Util
 import TrimeshVerif.Model.GeomRat
 import TrimeshVerif.Model.Winding
+import TrimeshVerif.Model.SceneAppend
 open Lean Drv TV.GeomRat
 namespace Drv.Geom
 
@@ -41,6 +42,14 @@ def handleC04 (j : Json) : Except String Json := do
 
 /-- C10: instances (world transform + geometry points): placed copies and per-node corners -/
 def handleC10 (j : Json) : Except String Json := do
+  let op ← fldD j "op" jStr ""
+  if op == "append" then
+    -- node renaming of append_scenes on integer node ids; the k-th drawn identifier is big + k
+    let scenes ← fld j "scenes" (jList (jList jNat))
+    let common ← fld j "common" (jList jNat)
+    let big ← fld j "big" jNat
+    return obj [("renamed", ofList (ofList ofNat)
+      (TV.SceneAppend.appendAll (fun k => big + k) common [] 0 scenes))]
   let insts ← fld j "instances" (jList (fun x => do
     pure (⟨← fld x "L" jM, ← fld x "t" jV, ← fld x "pts" (jList jV)⟩ : InstanceR)))
   let corners := insts.filterMap (fun i => match i.pts with
